@@ -30,8 +30,9 @@ namespace rkcommon {
 
     void BufferReader::read(void *mem, size_t size)
     {
-      // (not 'cursor + size > ...', which wraps around for huge sizes)
-      if (size > buffer->size() - cursor)
+      // (not 'cursor + size > ...', which wraps around for huge sizes; the
+      // cursor can be beyond the end if the buffer shrank under the reader)
+      if (cursor > buffer->size() || size > buffer->size() - cursor)
         throw std::runtime_error("Attempt to read past end of BufferReader!");
 
       if (mem && size > 0)
